@@ -628,18 +628,16 @@ pub fn stack(args: &Args, rep: &mut Report) {
     let entries: Vec<crate::Entry> = serde_json::from_str(&text).expect("corpus json");
     let ladder = if args.tier == "thorough" { "1024,16384,262144,4194304" } else { "1024,16384,262144" };
     rep.bounds.insert("stack_ladder".into(), format!("input lengths {ladder} bytes (a geometric ladder, NOT an exhaustive range) x up to 3 alphabet symbols per definition; state-machine lexer on a thread whose stack is twice the smallest of 64 KiB / 1 MiB / 16 MiB that handles a 64-byte input; a symbol's ladder stops early when the (inherently quadratic) maximal-munch rescans make a step slower than 2 s; build {}", rep.engine));
-    let child = |idx: usize, ladder: &str, stack: usize| {
-        std::process::Command::new(&exe)
-            .args(["stack-child", "--prop", &args.prop, "--corpus", &args.corpus, "--only", &idx.to_string(), "--file", &format!("{stack}:{ladder}")])
-            .output()
-            .expect("spawn child")
+    let child = |idx: usize, ladder: &str, stack: usize| -> ChildEnd {
+        let a: Vec<String> = ["stack-child", "--prop", &args.prop, "--corpus", &args.corpus, "--only", &idx.to_string(), "--file", &format!("{stack}:{ladder}")].iter().map(|x| x.to_string()).collect();
+        run_child_limited(&exe, &a, 600, "1")
     };
-    let results: Vec<(usize, Option<usize>, Option<std::process::Output>)> = entries
+    let results: Vec<(usize, Option<usize>, Option<ChildEnd>)> = entries
         .par_iter()
         .map(|e| {
             let mut base = None;
             for s in [64usize << 10, 1 << 20, 16 << 20] {
-                if child(e.idx, "64", s).status.success() {
+                if matches!(child(e.idx, "64", s), ChildEnd::Ok(_)) {
                     base = Some(s);
                     break;
                 }
@@ -667,13 +665,11 @@ pub fn stack(args: &Args, rep: &mut Report) {
             continue;
         };
         rep.observe(&format!("base_stack_{}KiB", base >> 10), 1);
-        let out = out.unwrap();
-        if !out.status.success() {
-            fail(rep, format!("the state-machine lexer handles a 64-byte input on a {} KiB stack but dies on longer inputs with twice that stack ({:?}): stack use grows with the input; stderr: {}", base >> 10, out.status, String::from_utf8_lossy(&out.stderr).chars().take(200).collect::<String>()));
-            continue;
+        match out.unwrap() {
+            ChildEnd::Ok(child) => rep.merge(child),
+            ChildEnd::Died(w) => fail(rep, format!("the state-machine lexer handles a 64-byte input on a {} KiB stack but dies on longer inputs with twice that stack ({w}): stack use grows with the input", base >> 10)),
+            ChildEnd::TimedOut => fail(rep, "the state-machine lexer did not finish the ladder within 600 s".into()),
         }
-        let child: Report = serde_json::from_slice(&out.stdout).expect("child report");
-        rep.merge(child);
     }
 }
 
@@ -738,25 +734,73 @@ pub fn stack_child(args: &Args, defs: &[Def], rep: &mut Report) {
 }
 
 
-/// Parent of a Layer-2 run: the corpus is split over child processes, so that a compiled lexer
-/// that crashes the process (stack overflow from endless restarts, an abort, a segfault in the
-/// unchecked build) is attributed to its definition instead of killing the whole sweep.
+/// run a child with a wall-clock limit; its report goes through a file (no pipe to fill up)
+pub enum ChildEnd {
+    Ok(Report),
+    Died(String),
+    TimedOut,
+}
+
+pub fn run_child_limited(exe: &std::path::Path, args: &[String], secs: u64, threads: &str) -> ChildEnd {
+    static N: std::sync::atomic::AtomicUsize = std::sync::atomic::AtomicUsize::new(0);
+    let id = N.fetch_add(1, std::sync::atomic::Ordering::SeqCst);
+    let out = std::env::temp_dir().join(format!("vrt-child-{}-{id}.json", std::process::id()));
+    let errf = std::env::temp_dir().join(format!("vrt-child-{}-{id}.err", std::process::id()));
+    let _ = std::fs::remove_file(&out);
+    let mut cmd = std::process::Command::new(exe);
+    cmd.args(args).arg("--out").arg(&out);
+    cmd.env("RAYON_NUM_THREADS", threads);
+    cmd.stdout(std::process::Stdio::null());
+    cmd.stderr(std::fs::File::create(&errf).expect("stderr file"));
+    let mut child = cmd.spawn().expect("spawn child");
+    let t0 = std::time::Instant::now();
+    let status = loop {
+        match child.try_wait().expect("wait") {
+            Some(st) => break Some(st),
+            None => {
+                if t0.elapsed().as_secs() >= secs {
+                    let _ = child.kill();
+                    let _ = child.wait();
+                    break None;
+                }
+                std::thread::sleep(std::time::Duration::from_millis(40));
+            }
+        }
+    };
+    let err = std::fs::read_to_string(&errf).unwrap_or_default();
+    let _ = std::fs::remove_file(&errf);
+    let res = match status {
+        None => ChildEnd::TimedOut,
+        Some(st) if st.success() => match std::fs::read(&out).ok().and_then(|b| serde_json::from_slice::<Report>(&b).ok()) {
+            Some(r) => ChildEnd::Ok(r),
+            None => ChildEnd::Died(format!("no report; {}", err.lines().filter(|l| !l.trim().is_empty()).take(3).collect::<Vec<_>>().join(" | "))),
+        },
+        Some(st) => ChildEnd::Died(format!("{st:?}: {}", err.lines().filter(|l| !l.trim().is_empty() && !l.starts_with("vrt ")).take(3).collect::<Vec<_>>().join(" | "))),
+    };
+    let _ = std::fs::remove_file(&out);
+    res
+}
+
+/// Parent of a Layer-2 run: the corpus is split over child processes, each with a wall-clock
+/// limit, so that a compiled lexer that crashes the process (stack overflow from endless restarts,
+/// an abort, a segfault in the unchecked build) or never returns is attributed to its definition
+/// instead of killing or hanging the whole sweep.
 pub fn layer2_sharded(args: &Args, rep: &mut Report) {
     let exe = std::env::current_exe().expect("exe");
     let text = std::fs::read_to_string(&args.corpus).expect("corpus.json");
     let entries: Vec<crate::Entry> = serde_json::from_str(&text).expect("corpus json");
     let n = 16usize;
-    let run_child = |extra: Vec<String>| {
-        let mut cmd = std::process::Command::new(&exe);
-        cmd.args(["layer2", "--prop", &args.prop, "--tier", &args.tier, "--corpus", &args.corpus, "--seed", &args.seed.to_string()]);
-        cmd.args(extra);
-        cmd.env("RAYON_NUM_THREADS", "2");
-        cmd.output().expect("spawn child")
+    let (shard_secs, single_secs) = if args.tier == "thorough" { (3600, 600) } else { (150, 40) };
+    let base: Vec<String> = ["layer2", "--prop", &args.prop, "--tier", &args.tier, "--corpus", &args.corpus, "--seed", &args.seed.to_string()].iter().map(|x| x.to_string()).collect();
+    let with = |extra: [String; 2]| {
+        let mut v = base.clone();
+        v.extend(extra);
+        v
     };
-    let outs: Vec<(usize, std::process::Output)> = (0..n).into_par_iter().map(|i| (i, run_child(vec!["--shard".into(), format!("{i}/{n}")]))).collect();
-    for (i, out) in outs {
-        if out.status.success() {
-            if let Ok(child) = serde_json::from_slice::<Report>(&out.stdout) {
+    let outs: Vec<(usize, ChildEnd)> = (0..n).into_par_iter().map(|i| (i, run_child_limited(&exe, &with(["--shard".into(), format!("{i}/{n}")]), shard_secs, "2"))).collect();
+    for (i, end) in outs {
+        let why = match end {
+            ChildEnd::Ok(child) => {
                 let b = child.bounds.clone();
                 rep.merge(child);
                 for (k, v) in b {
@@ -764,31 +808,35 @@ pub fn layer2_sharded(args: &Args, rep: &mut Report) {
                 }
                 continue;
             }
-        }
-        // the shard died: find the definitions that kill it, one child per definition
+            ChildEnd::Died(w) => format!("died ({w})"),
+            ChildEnd::TimedOut => format!("did not finish within {shard_secs} s"),
+        };
+        // the shard failed: find the definitions responsible, one child per definition
         let members: Vec<&crate::Entry> = entries.iter().filter(|e| e.idx % n == i).collect();
-        let singles: Vec<(usize, std::process::Output)> = members.par_iter().map(|e| (e.idx, run_child(vec!["--only".into(), e.idx.to_string()]))).collect();
+        let singles: Vec<(usize, ChildEnd)> = members.par_iter().map(|e| (e.idx, run_child_limited(&exe, &with(["--only".into(), e.idx.to_string()]), single_secs, "1"))).collect();
         let mut located = false;
-        for (idx, o) in singles {
+        for (idx, end) in singles {
             let e = &entries[idx];
-            if o.status.success() {
-                if let Ok(child) = serde_json::from_slice::<Report>(&o.stdout) {
+            let (tag, detail) = match end {
+                ChildEnd::Ok(child) => {
                     rep.merge(child);
                     continue;
                 }
-            }
+                ChildEnd::Died(w) => ("CRASH", format!("replaying the enumerated inputs on the compiled lexer killed the process: {w}")),
+                ChildEnd::TimedOut => ("HANG", format!("replaying the enumerated inputs on the compiled lexer did not finish within {single_secs} s: some next() call never returns")),
+            };
             located = true;
             rep.count("programs", 1);
             rep.violations.push(Violation {
-                key: format!("CRASH/{}", e.spec.short()),
-                tag: "CRASH".into(),
+                key: format!("{tag}/{}", e.spec.short()),
+                tag: tag.into(),
                 case: format!("{} {}", e.name, e.spec.short()),
-                detail: format!("replaying the enumerated inputs on the compiled lexer killed the process ({:?}): {}", o.status, String::from_utf8_lossy(&o.stderr).lines().filter(|l| !l.trim().is_empty()).take(3).collect::<Vec<_>>().join(" | ")),
-                replay: json!({"kind": "layer2-crash", "prop": args.prop, "name": e.name, "spec": e.spec, "tag": "CRASH"}),
+                detail,
+                replay: json!({"kind": "layer2-crash", "prop": args.prop, "name": e.name, "spec": e.spec, "tag": tag}),
             });
         }
         if !located {
-            panic!("shard {i} failed but no single definition reproduces the failure: {}", String::from_utf8_lossy(&out.stderr).chars().take(500).collect::<String>());
+            panic!("shard {i} {why} but no single definition reproduces the failure");
         }
     }
 }
